@@ -10,6 +10,9 @@ Only structural necessary conditions are decided (weak claim, stated as such):
  D2 R-EXH   image term: the accumulation into Z inside the image loop is scaled by the image sign,
             and the set of computed elements is restricted by the "source pulse not grounded" mask
             for the image (k < 0).
+ D3 R-SIB   a pulse at a junction takes its outer half (segment, direction, length, outer point) from the
+            neighbour segment that touches the junction, for all four end-to-end combinations (creation
+            model over the abstract end states, shared with C06).
 Not decided: agreement to 1e-4 with adaptive quadrature, Gauss order thresholds, validity of the
             symmetry / diagonal copy optimisations (exact float equality of runtime geometry).
 """
@@ -135,5 +138,9 @@ def run(ctx, ck):
     ck.rule('R-SYM.ground-halves', 'statements selecting one half of the ground flags select the other too')
     nsel, nst = check_ground_symmetry(ctx, ck)
     ck.floor('statements selecting a half of the ground flags', nst, 3)
+    # D3: the geometry every term of a junction pulse is computed from
+    ck.rule('R-SIB.junction-geometry', 'outer half of a junction pulse on the neighbour segment touching the junction')
+    from ._creation import check_neighbour_segment
+    check_neighbour_segment(ctx, ck, rule='R-SIB.junction-geometry')
     ck.undecided += ['agreement to 1e-4 with adaptive quadrature of the published formulation',
                      'Gauss order thresholds; symmetry / diagonal copy optimisations']
